@@ -15,6 +15,9 @@ package main
 //     compared with coq/theories/Hostile.v (settled after each frame) inside Coq;
 //   * oracle-only: floods without reading, mutated valid traffic, hostile length fields, abrupt
 //     disconnects: only "server alive" and "probe answered" are judged.
+// Further families: c12burst.go (bursts with the message type varied), c12svc0.go (volleys aimed at
+// service 0 itself, then fresh clients that have to authenticate; model Auth.v), c12lost.go (clients
+// gone before their answers are written, on every transport).
 
 import (
 	"bufio"
@@ -39,7 +42,11 @@ import (
 
 func init() {
 	if len(os.Args) > 2 && os.Args[1] == "c12-server" {
-		c12server(os.Args[2])
+		opts := ""
+		if len(os.Args) > 3 {
+			opts = os.Args[3]
+		}
+		c12server(os.Args[2], opts)
 		os.Exit(0)
 	}
 	props["C12"] = runC12
@@ -57,11 +64,24 @@ func c12meta() object.MetaObject {
 		Properties: map[uint32]object.MetaProperty{}}
 }
 
-// c12server: the child process.
-func c12server(dir string) {
+// c12server: the child process.  opts (c12svc0.go, c12lost.go): "dict" = the server has a real
+// authenticator (bus.Dictionary over c12users) instead of the one that accepts everybody; "multi" =
+// it accepts connections on every transport of bus/net (unix://, tcp://, tcps://, pipe://) at once.
+func c12server(dir string, opts string) {
 	lim := syscall.Rlimit{Cur: 4 << 30, Max: 4 << 30}
 	syscall.Setrlimit(syscall.RLIMIT_AS, &lim)
-	srv, err := directory.NewServer("unix://"+dir+"/sock", nil)
+	var auth bus.Authenticator
+	if strings.Contains(opts, "dict") {
+		auth = bus.Dictionary(c12users)
+	}
+	var srv bus.Server
+	var err error
+	extra := ""
+	if strings.Contains(opts, "multi") {
+		srv, extra, err = c12multiServer(dir, auth)
+	} else {
+		srv, err = directory.NewServer("unix://"+dir+"/sock", auth)
+	}
 	if err != nil {
 		fmt.Println("ERR", err)
 		os.Exit(3)
@@ -76,12 +96,14 @@ func c12server(dir string) {
 		fmt.Println("ERR", err)
 		os.Exit(3)
 	}
-	fmt.Println("READY", svc.ServiceID(), id2)
+	fmt.Println("READY", svc.ServiceID(), id2, extra)
 	io.Copy(io.Discard, os.Stdin) // lives until the parent closes the pipe
 }
 
 type c12child struct {
 	dir    string
+	tcp    string // "multi" servers: host:port of the tcp:// and of the tcps:// listener
+	tls    string
 	cmd    *exec.Cmd
 	stdin  io.WriteCloser
 	svc    uint32
@@ -89,13 +111,15 @@ type c12child struct {
 	exited chan error
 }
 
-func c12start(root string) (*c12child, error) {
+func c12start(root string) (*c12child, error) { return c12startOpts(root, "") }
+
+func c12startOpts(root, opts string) (*c12child, error) {
 	dir, err := os.MkdirTemp(root, "c12-")
 	if err != nil {
 		return nil, err
 	}
 	ch := &c12child{dir: dir, exited: make(chan error, 1)}
-	ch.cmd = exec.Command(os.Args[0], "c12-server", dir)
+	ch.cmd = exec.Command(os.Args[0], "c12-server", dir, opts)
 	ch.stdin, _ = ch.cmd.StdinPipe()
 	stdout, _ := ch.cmd.StdoutPipe()
 	errf, _ := os.Create(dir + "/stderr")
@@ -111,6 +135,9 @@ func c12start(root string) (*c12child, error) {
 		if _, err := fmt.Sscanf(strings.TrimSpace(line), "READY %d %d", &ch.svc, &ch.obj2); err != nil {
 			ch.stop()
 			return nil, fmt.Errorf("child said %q", line)
+		}
+		if w := strings.Fields(line); len(w) >= 5 {
+			ch.tcp, ch.tls = w[3], w[4]
 		}
 	case <-time.After(10 * time.Second):
 		ch.stop()
@@ -144,10 +171,18 @@ func (ch *c12child) stop() {
 
 // ---- raw client ----
 
+// c12conn: what the raw client needs from a connection (a net.Conn, or the descriptor pair of pipe://)
+type c12conn interface {
+	io.ReadWriteCloser
+	SetReadDeadline(time.Time) error
+	SetWriteDeadline(time.Time) error
+}
+
 type c12raw struct {
-	c    gonet.Conn
-	got  [][3]uint32 // type, action, id of every frame received after authentication
-	sent []string    // what was written, for the replay of oracle-only scripts
+	c      c12conn
+	got    [][3]uint32 // type, action, id of every frame received after authentication
+	sent   []string    // what was written, for the replay of oracle-only scripts
+	hexMax int         // payloads longer than this many hex digits are abbreviated in sent (0: 80)
 }
 
 func (r *c12raw) logSent(b []byte) {
@@ -168,9 +203,16 @@ func (r *c12raw) logSent(b []byte) {
 			end = len(b)
 		}
 		pl := b[off+28 : end]
+		hexMax := 80
+		if r.hexMax > 0 {
+			hexMax = r.hexMax
+		}
+		if len(pl) > hexMax {
+			pl = pl[:hexMax/2+1]
+		}
 		plx := fmt.Sprintf("%x", pl)
-		if len(plx) > 80 {
-			plx = plx[:80] + fmt.Sprintf("..(%d bytes)", len(pl))
+		if len(plx) > hexMax {
+			plx = plx[:hexMax] + fmt.Sprintf("..(%d bytes)", end-off-28)
 		}
 		r.sent = append(r.sent, fmt.Sprintf("{type %d service %d object %d action %d id %d payload %s}", b[off+14],
 			binary.LittleEndian.Uint32(b[off+16:off+20]), binary.LittleEndian.Uint32(b[off+20:off+24]),
@@ -191,17 +233,81 @@ func c12dial(dir string) (*c12raw, error) {
 	if err != nil {
 		return nil, err
 	}
+	return c12handshake(c, "", "")
+}
+
+// c12handshake: the real authentication exchange of a client (bus.ClientCap) on a fresh connection.
+// A client is authenticated when service 0 answers with a Reply whose map says "done".
+func c12handshake(c c12conn, user, token string) (*c12raw, error) {
 	r := &c12raw{c: c}
-	var buf bytes.Buffer
-	bus.WriteCapabilityMap(bus.ClientCap("", ""), &buf)
-	r.writeFrame(net.Call, 0, 0, 8, 1, buf.Bytes())
-	m, err := r.readFrame(c12Answer)
-	if err != nil || m.Header.Type != net.Reply {
+	body, _ := r.authenticate(1, user, token)
+	if body != c12Done {
 		c.Close()
-		return nil, fmt.Errorf("authentication failed: %v", err)
+		return nil, fmt.Errorf("authentication failed: %s", c12bodyName(body))
 	}
 	r.sent = nil
 	return r, nil
+}
+
+const (
+	c12NoAnswer = -1
+	c12ErrFrame = 0  // an Error frame
+	c12Done     = 10 // a Reply whose capability map has __qi_auth_state = 3
+	c12Refused  = 11 // ... = 1
+	c12OtherRep = 12 // any other Reply
+)
+
+func c12bodyName(b int) string {
+	return map[int]string{c12NoAnswer: "no answer", c12ErrFrame: "an Error frame", c12Done: "a Reply with state done",
+		c12Refused: "a Reply with state error (refused)", c12OtherRep: "a Reply without an authentication state"}[b]
+}
+
+// c12body classifies an answer of service 0.
+func c12body(m *net.Message) int {
+	if m.Header.Type != net.Reply {
+		return c12ErrFrame
+	}
+	cm, err := bus.ReadCapabilityMap(bytes.NewReader(m.Payload))
+	if err != nil {
+		return c12OtherRep
+	}
+	var st uint32
+	switch v := cm[bus.KeyState].(type) {
+	case value.UintValue:
+		st = uint32(v)
+	case value.IntValue:
+		st = uint32(v.Value())
+	default:
+		return c12OtherRep
+	}
+	switch st {
+	case bus.StateDone:
+		return c12Done
+	case bus.StateError:
+		return c12Refused
+	}
+	return c12OtherRep
+}
+
+// authenticate writes the authenticate call of a real client and classifies the answer; it also
+// returns the payload it wrote.
+func (r *c12raw) authenticate(id uint32, user, token string) (int, []byte) {
+	var buf bytes.Buffer
+	bus.WriteCapabilityMap(bus.ClientCap(user, token), &buf)
+	if r.writeFrame(net.Call, 0, 0, 8, id, buf.Bytes()) != nil {
+		return c12NoAnswer, buf.Bytes()
+	}
+	dl := time.Now().Add(c12Answer)
+	for time.Until(dl) > 0 {
+		m, err := r.readFrame(time.Until(dl))
+		if err != nil {
+			break
+		}
+		if m.Header.ID == id {
+			return c12body(m), buf.Bytes()
+		}
+	}
+	return c12NoAnswer, buf.Bytes()
 }
 
 func c12bytes(typ uint8, svc, obj, act, id uint32, payload []byte) []byte {
@@ -922,6 +1028,8 @@ func (run *c12run) judge(res *hx.Result, sw map[string]bool, desc string) {
 func runC12(res *hx.Result, rng *hx.Rng, tier string, outdir string) {
 	res.Rule = "scripts of raw frames from one authenticated client (all 8 message types, services 0/1/2/unknown, objects, every generic and directory action, " +
 		"valid / cut / wrong-object payloads, duplicate and conflicting registrations, terminate, floods, disconnects mid-message) against a server in a child process, then a probe client; " +
+		"volleys of authenticate calls with wrong / wrongly typed / empty / cut / huge credentials aimed at service 0 from authenticated and not yet authenticated connections, several volleys per server, " +
+		"then fresh clients with valid credentials that must authenticate and be answered by every object; clients gone before their answers are written on unix/tcp/tcps/pipe, then fresh clients on every transport; " +
 		"non-trivial = the script contains a malformed or conflicting request; distinct by sha256 of the frames"
 	root := os.Getenv("VERIF_ROOT")
 	if root == "" {
@@ -1194,7 +1302,22 @@ func runC12(res *hx.Result, rng *hx.Rng, tier string, outdir string) {
 	cf.Flush()
 
 	// ---- bursts with the message type varied (c12burst.go) ----
+	t0 := time.Now()
+	phase := func(name string) {
+		res.Distribution["seconds-x10:"+name] = int(time.Since(t0).Seconds() * 10)
+		t0 = time.Now()
+	}
+	phase("switch-probes-and-compared-scripts")
 	c12bursts(res, rng, root, outdir, cfg, sw, rounds)
+	phase("type-bursts")
+
+	// ---- hostile traffic aimed at service 0 itself, then fresh clients that have to authenticate (c12svc0.go) ----
+	c12svc0(res, rng, root, outdir, rounds)
+	phase("service-0-volleys")
+
+	// ---- clients gone before their answers are written, on every transport, then fresh clients on every transport (c12lost.go) ----
+	c12lost(res, rng, root, outdir, cfg, rounds)
+	phase("lost-replies")
 
 	// ---- oracle-only scripts ----
 	for round := 0; round < rounds; round++ {
